@@ -578,6 +578,39 @@ func c09HtmlSpecAsXnet(items []c09HtmlItem) []string {
 	return out
 }
 
+// c09HtmlXnetShape: the element structure and the visible text as the x/net/html PARSER sees them: element names in document
+// order (optional html/head/body/tbody/colgroup wrappers aside) and the text outside script/style/iframe/noscript without white space
+func c09HtmlXnetShape(doc []byte) string {
+	root, err := xhtml.Parse(bytes.NewReader(doc))
+	if err != nil {
+		return "parse-error"
+	}
+	var b strings.Builder
+	var walk func(n *xhtml.Node, hidden bool)
+	walk = func(n *xhtml.Node, hidden bool) {
+		switch n.Type {
+		case xhtml.ElementNode:
+			switch n.Data {
+			case "html", "head", "body", "tbody", "colgroup":
+			default:
+				b.WriteString("<" + n.Data + ">")
+			}
+			if n.Data == "script" || n.Data == "style" || n.Data == "iframe" || n.Data == "noscript" || n.Data == "noembed" || n.Data == "noframes" {
+				hidden = true // not rendered; iframe/noscript content is raw text for this parser and markup for the minifier
+			}
+		case xhtml.TextNode:
+			if !hidden {
+				b.WriteString(c09HtmlStripWs(n.Data))
+			}
+		}
+		for c := n.FirstChild; c != nil; c = c.NextSibling {
+			walk(c, hidden)
+		}
+	}
+	walk(root, false)
+	return b.String()
+}
+
 // inputs on which x/net/html is known to deviate from the standard (or from the byte-level reading of the
 // specification): NUL bytes, non-UTF-8 bytes (x/net replaces them), numeric references it overflows or rejects
 // (see c03OracleSafe), `<![CDATA[` outside foreign content, `<plaintext>`, `</>` (x/net: empty comment; standard: nothing)
@@ -709,6 +742,7 @@ func c09HtmlExcused(ks []string, sig string) string {
 // ---------- evaluation of a batch of cases ----------
 
 type c09HtmlCase struct {
+	shape  bool // also compare the x/net/html parser's element structure + visible text of input and output
 	in     []byte
 	cfg    c09HtmlCfg
 	label  string
@@ -726,6 +760,7 @@ func c09HtmlFail(c *Ctx, st *h.Stage, cs c09HtmlCase, what string, out []byte, d
 		Impl: h.Q(trunc(out, 400)) + " " + detail})
 }
 
+var c09HtmlDoubleEscaped = regexp.MustCompile("(?is)<!--.*<script[ \\t\\n\\f\\r/>]")
 var c09HtmlRawEnd = regexp.MustCompile(`(?i)</(script|style|textarea|title|iframe)[ \t\n\f\r/>]`)
 
 // measured on the OUTPUT: which hazard constructs are really there
@@ -796,6 +831,9 @@ func c09HtmlHazards(st *h.Stage, in, out []c09HtmlItem, outBytes []byte) {
 				}
 				if strings.Contains(it.raw, "]]>") {
 					st.Tag("hazard=raw-cdata-end")
+				}
+				if cur == "script" && c09HtmlDoubleEscaped.MatchString(it.raw) {
+					st.Tag("hazard=script-double-escaped") // the state is really entered by the OUTPUT's script text
 				}
 				if strings.Contains(strings.ToLower(it.raw), "</"+cur) {
 					st.Tag("hazard=raw-own-end-tag-prefix") // `</script` not followed by whitespace, `/`, `>`
@@ -935,6 +973,13 @@ func c09HtmlEval(c *Ctx, st *h.Stage, cases []c09HtmlCase) error {
 			st.Tag("noscript-both-readings")
 			if x, y := c09HtmlSkeleton(a, cs.cfg, true), c09HtmlSkeleton(b, cs.cfg, false); x != y && c09HtmlExcused(known, "tag") == "" {
 				c09HtmlFail(c, st, cs, "with scripting enabled (noscript = raw text) the tag skeleton of the output differs", r.out, x+" vs "+y)
+				continue
+			}
+		}
+		if cs.shape && c09HtmlXnetSafe(cs.in) {
+			st.Tag("xnet-shape-compared")
+			if x, y := c09HtmlXnetShape(cs.in), c09HtmlXnetShape(r.out); x != y && len(known) == 0 {
+				c09HtmlFail(c, st, cs, "x/net/html parser: element structure / visible text of the output differ from the input", r.out, x+" vs "+y)
 				continue
 			}
 		}
@@ -1089,7 +1134,38 @@ func c09HtmlGenStyle(r *h.RNG) string {
 	return b.String()
 }
 
+// script-double-escaped: `<!--` and `<script`+delimiter survive JS minification only inside regular expression literals and
+// kept `/*! … */` comments (string and template literals get `<\!--` since a80add2); the `</script` that balances them in
+// the source sits in a removable comment, in a string that the JS minifier rewrites to `<\/script`, or is absent
+var c09HtmlDEOpen = []string{"var re=/<!--<script>/;", "var re = /<!--[\\s\\S]*<SCRIPT /i;", "var re=/a<!--b<script\t/;", "/*! <!--<script> */", "/*! <!--<Script/ */", "/*! x <!--\n<script\n */",
+	"var t=`<!--<script>`;", "var re=/<!--/, r2=/<script>/;", "if (/<!--<script >/.test(x)) y();"}
+var c09HtmlDEClose = []string{"/* </script> */", "// </SCRIPT >\n", "/* </script/ */", "/* x </Script\t y */", "var s = \"</script>\";", "var s = 'a</script b';", "", ""}
+
+func c09HtmlGenScriptDE(r *h.RNG) string {
+	var b strings.Builder
+	b.WriteString("<script>")
+	b.WriteString(c09HtmlPick(r, []string{"", "var a = 1; ", "f0();\n"}))
+	b.WriteString(c09HtmlPick(r, c09HtmlDEOpen))
+	b.WriteString(c09HtmlPick(r, []string{"", " ", "\n"}))
+	b.WriteString(c09HtmlPick(r, c09HtmlDEClose))
+	switch r.Intn(5) {
+	case 0: // a second level: enter the double-escaped state again and balance it again
+		b.WriteString(" var r3=/<script>/; " + c09HtmlPick(r, c09HtmlDEClose[:6]))
+	case 1: // `-->` leaves the escaped states altogether
+		b.WriteString(" var q=/-->/; ")
+	case 2:
+		b.WriteString(" var r4=/<script\\/>/; /* </script> */ /* </script> */")
+	}
+	b.WriteString(c09HtmlPick(r, []string{" f()", "\nf();", " var z = a < b;"}))
+	b.WriteString("</script>")
+	b.WriteString(c09HtmlPick(r, []string{"<p>x</p><script>g()</script>", "<p>  x  y </p><script>g( 1 )</script><i>t</i>", "<div>d</div>"}))
+	return b.String()
+}
+
 func c09HtmlGenRaw(r *h.RNG) string {
+	if r.Chance(12) {
+		return c09HtmlGenScriptDE(r)
+	}
 	switch r.Intn(7) {
 	case 0, 1:
 		t := c09HtmlPick(r, []string{"", "", " type=text/javascript", " type=module", " async", " type=\"text/template\"", " type=application/ld+json"})
@@ -1228,6 +1304,17 @@ var c09HtmlFixedCorpus = []string{
 	"<script>var s = `<!--<script>`; var t = `</script>`;</script><p>after</p>", "<script>document.write(\"<!--<script>alert(1)</script>-->\")</script><p>after</p>",
 	"<script><!--\ndocument.write(\"<script>x</script>\");\n//--></script><p>after</p>", "<script>var r = /<!--<script>/; var q = 1 </script>/ 2;</script><p>after</p>",
 	"<script>var t0 = 'a<!--<script>b';\nvar s1 = \"a</scriptx>b\";/* < /script> */ // </script\n\n</script><p>  y  z</p>",
+	// K-C09-HTML-8, script-double-escaped with what survives JS minification (regex literals, bang comments), seeded C09-m8
+	"<script>var re=/<!--<script>/;/* </script> */ f()</script><p>x</p><script>g()</script>",
+	"<script>var re=/<!--<script>/; // </script>\nf()</script><p>x</p><script>g()</script>",
+	"<script>var re=/<!--[\\s\\S]*<SCRIPT /i; var s = \"</script>\"; f()</script><p>x</p><script>g()</script>",
+	"<script>/*! <!--<script> */ /* </script> */ f()</script><p>x</p><script>g()</script>",
+	"<script>/*! <!--<Script/ */ // </SCRIPT >\nf()</script><p>x</p><script>g()</script>",
+	"<script>var re=/<!--<script>/;/* </script> */ var r2=/<script\t/; /* </SCRIPT > */ f()</script><p>x</p><script>g()</script>",
+	"<script>var re=/<!--<script>/;/* </script> */ var q=/-->/; f()</script><p>x</p><script>g()</script>",
+	"<script>var re=/<!--<script>-->/; f()</script><p>x</p><script>g()</script>",
+	"<script>var t=`<!--<script>`; /* </script> */ f()</script><p>x</p><script>g()</script>",
+	"<script>if (/<!--<script >/.test(x)) y(); var s = 'a</script b'; f()</script><p>  x  y </p><script>g( 1 )</script><i>t</i>",
 	// K-C09-HTML-9: iframe content
 	"<iframe><b title=\"&lt;/iframe&gt;\">x</b></iframe><p>after</p>", "<iframe><script>var s = \"<\\/iframe>\";</script></iframe><p>after</p>",
 	"<iframe><a href=\"&#60;/iframe \">y</a></iframe><p>after</p>", "<iframe><b title=\"&amp;&lt;/iframe&gt;\" class=\" a  b \">  x  &amp;  y </b></iframe>z",
@@ -1346,12 +1433,17 @@ func c09HtmlStages(c *Ctx) error {
 
 	// (2) raw-text elements, comments, `<` and references in text
 	{
-		st := c.R.StartStage("c09-html-raw", "script / style / textarea / title / iframe elements whose content contains `</script`, `</SCRIPT `, `<\\/script`, `\\x3c/script`, `<!--`, `<!--<script>`, `-->`, `]]>`, `</style` in strings, comments, regular expressions, template literals, url()s, and legacy `<!-- … //-->` wrappers; real JS/CSS/JSON/HTML sub-minifiers and none; clause: same tags in the same order (no element closes early or late), raw text byte-identical without sub-minifier; non-trivial = output differs from input")
+		st := c.R.StartStage("c09-html-raw", "script / style / textarea / title / iframe elements whose content contains `</script`, `</SCRIPT `, `<\\/script`, `\\x3c/script`, `<!--`, `<!--<script>`, `-->`, `]]>`, `</style` in strings, comments, regular expressions, template literals, url()s, and legacy `<!-- … //-->` wrappers; real JS/CSS/JSON/HTML sub-minifiers and none; class script-double-escaped: `<!--` + `<script`+delimiter in regex literals / bang comments / templates, the balancing `</script` in a removable comment, a rewritten string, or absent, two levels, `-->`, followed by more document (also judged by the x/net/html parser: same elements, same visible text); clause: same tags in the same order (no element closes early or late), raw text byte-identical without sub-minifier; non-trivial = output differs from input")
 		var cases []c09HtmlCase
 		n := c.N(900, 40000) * wide
 		for i := 0; i < n; i++ {
 			d := "<div>" + c09HtmlPick(r, []string{"", "a ", "<p>x"}) + c09HtmlGenRaw(r) + c09HtmlPick(r, []string{"", " b", "<p>  y  z</p>"}) + "</div>"
 			cases = append(cases, c09HtmlCase{in: []byte(d), cfg: cfgOf(), label: "raw"})
+			if i%6 == 0 { // the script-double-escaped class on its own, with the real JS minifier and with the empty registry
+				de := c09HtmlGenScriptDE(r)
+				cases = append(cases, c09HtmlCase{in: []byte(de), cfg: c09HtmlCfg{mask: c09HtmlMask(r), sub: true}, label: "script-double-escaped", shape: true})
+				cases = append(cases, c09HtmlCase{in: []byte(de), cfg: c09HtmlCfg{mask: 0, sub: false}, label: "script-double-escaped", shape: true})
+			}
 		}
 		if err := c09HtmlEval(c, st, cases); err != nil {
 			return err
@@ -1425,7 +1517,7 @@ func c09HtmlStages(c *Ctx) error {
 		for _, in := range c09HtmlFixedCorpus {
 			for _, mask := range []int{0, 2, 1, 32, 64, 2 | 16 | 32} {
 				for _, sub := range []bool{true, false} {
-					cases = append(cases, c09HtmlCase{in: []byte(in), cfg: c09HtmlCfg{mask: mask, sub: sub}, label: "fixed"})
+					cases = append(cases, c09HtmlCase{in: []byte(in), cfg: c09HtmlCfg{mask: mask, sub: sub}, label: "fixed", shape: true})
 				}
 			}
 		}
